@@ -19,6 +19,8 @@ def parse_arr(s):
     return np.array(common.parse_floats(d), dtype=np.float64).reshape(shape)
 
 
+SPELLINGS = False        # set together with LAYOUTS: integer arguments also arrive as NumPy integers, tuples also as lists
+SPELL_OPS = ('concat', 'stack', 'unbind', 'sum', 'mean', 'squeeze', 'unsqueeze', 'reshape', 'movedim', 'transpose', 'flatten')
 LAYOUTS = False          # set by the property modules whose input space includes the memory layout of leaf arrays
 LAYOUT_NAMES = ['C', 'C', 'F', 'strided', 'reversed', 'offset', 'transposed']
 
@@ -105,8 +107,26 @@ class Impl:
 
     # ------------------------------------------------------------------ ops
     def call_op(self, name, ins, args):
+        """integer arguments are also spelled as NumPy integers, tuples also as lists (the model sees the values). A spelling the
+        forward REJECTS is not part of the documented argument space: the call is then judged on the plain spelling. A spelling
+        the forward ACCEPTS must work all the way through backward."""
+        sp = (sum(map(ord, ' '.join(map(str, args)))) + len(ins)) % 3 if SPELLINGS and name in SPELL_OPS else 0
+        if sp:
+            try:
+                return self._call_op(name, ins, args, sp)
+            except Exception:
+                pass
+        return self._call_op(name, ins, args, 0)
+
+    def _call_op(self, name, ins, args, sp):
         sg = self.sg
         x = [self.ts[i] for i in ins]
+        def I(v):
+            if v is None or sp == 0: return v
+            if isinstance(v, (tuple, list)):
+                return [np.int64(q) for q in v] if sp == 2 else tuple(np.int64(q) for q in v)
+            return np.int64(v)
+        int_ = lambda s_: I(int(s_))
         if name in ('add', 'mul', 'matmul'): return getattr(sg, name)(x[0], x[1])
         if name == 'addmm': return sg.addmm(x[0], x[1], x[2])
         if name in ('neg', 'clone', 'exp', 'log', 'sqrt'): return getattr(sg, name)(x[0])
@@ -116,27 +136,44 @@ class Impl:
             # the sequence is the caller's object: hand over a list or a tuple, and (for a list) mutate it once the call has
             # returned — the graph must have its own record of the operands
             seq = list(x) if int(args[0]) % 2 == 0 else tuple(x)
-            r = getattr(sg, name)(seq, int(args[0]))
+            r = getattr(sg, name)(seq, int_(args[0]))
             if isinstance(seq, list):
                 seq.reverse(); seq.pop()
             return r
-        if name == 'unbind': return sg.unbind(x[0], int(args[0]))
-        if name in ('sum', 'mean'): return getattr(sg, name)(x[0], parse_axes(args[0]), bool(int(args[1])))
+        if name == 'unbind': return sg.unbind(x[0], int_(args[0]))
+        if name in ('sum', 'mean'): return getattr(sg, name)(x[0], I(parse_axes(args[0])), bool(int(args[1])))
         if name in ('max', 'min'): return getattr(sg, name)(x[0], opt_int(args[0]), bool(int(args[1])))
-        if name == 'squeeze': return sg.squeeze(x[0], parse_axes(args[0]))
+        if name == 'squeeze': return sg.squeeze(x[0], I(parse_axes(args[0])))
         if name == 'unsqueeze':
             ax = common.parse_ints(args[0])
-            return sg.unsqueeze(x[0], ax[0] if len(ax) == 1 else tuple(ax))
-        if name == 'reshape': return sg.reshape(x[0], tuple(common.parse_ints(args[0])))
-        if name == 'movedim': return sg.movedim(x[0], int(args[0]), int(args[1]))
-        if name == 'transpose': return sg.transpose(x[0], int(args[0]), int(args[1]))
-        if name == 'flatten': return sg.flatten(x[0], int(args[0]), int(args[1]))
+            return sg.unsqueeze(x[0], I(ax[0] if len(ax) == 1 else tuple(ax)))
+        if name == 'reshape': return sg.reshape(x[0], I(tuple(common.parse_ints(args[0]))))
+        if name == 'movedim': return sg.movedim(x[0], int_(args[0]), int_(args[1]))
+        if name == 'transpose': return sg.transpose(x[0], int_(args[0]), int_(args[1]))
+        if name == 'flatten': return sg.flatten(x[0], int_(args[0]), int_(args[1]))
         if name == 'unfold_dim': return sg.unfold_dim(x[0], int(args[0]), int(args[1]), int(args[2]))
         return self.call_nn(name, x, args)
 
     def call_nn(self, name, x, args):
+        """`int or tuple` arguments of the 2-d ops are spelled as a pair, as the documented bare int when both entries agree, as a
+        list, or as a pair of NumPy integers; the undocumented spellings fall back to the pair when the forward rejects them"""
+        sp = (sum(map(ord, ' '.join(map(str, args)))) + len(x)) % 4 if SPELLINGS and name in ('conv2d', 'max_pool2d', 'avg_pool2d', 'unfold', 'fold') else 0
+        if sp and sp % 2 == 0 and name != 'conv2d' and len(set(args[0].split(','))) == 1: sp = 1      # square kernel: the documented int spelling half of the time
+        if sp >= 2:
+            try:
+                return self._call_nn(name, x, args, sp)
+            except Exception:
+                sp = 0
+        return self._call_nn(name, x, args, sp)
+
+    def _call_nn(self, name, x, args, sp=0):
         sg = self.sg
-        pair = lambda a: tuple(common.parse_ints(a))
+        def pair(a):
+            v = tuple(common.parse_ints(a))
+            if sp == 1 and len(v) == 2 and v[0] == v[1]: return v[0]       # documented: int or tuple
+            if sp == 2: return list(v)
+            if sp == 3: return tuple(np.int64(q) for q in v)
+            return v
         if name in ('relu', 'selu', 'tanh', 'sigmoid'): return getattr(sg, name)(x[0])
         if name == 'leaky_relu': return sg.leaky_relu(x[0], bitsf(args[0]))
         if name in ('softmax', 'log_softmax'): return getattr(sg, name)(x[0], int(args[0]))
@@ -148,7 +185,7 @@ class Impl:
         if name in ('max_pool1d', 'avg_pool1d'): return getattr(sg, name)(x[0], int(args[0]), int(args[1]), int(args[2]), int(args[3]))
         if name in ('max_pool2d', 'avg_pool2d'): return getattr(sg, name)(x[0], pair(args[0]), pair(args[1]), pair(args[2]), pair(args[3]))
         if name == 'unfold': return sg.unfold(x[0], pair(args[0]), pair(args[1]), pair(args[2]), pair(args[3]), bitsf(args[4]))
-        if name == 'fold': return sg.fold(x[0], pair(args[0]), pair(args[1]), pair(args[2]), pair(args[3]), pair(args[4]))
+        if name == 'fold': return sg.fold(x[0], tuple(common.parse_ints(args[0])), pair(args[1]), pair(args[2]), pair(args[3]), pair(args[4]))
         if name == 'batch_norm':
             hw, hb, tr = bool(int(args[0])), bool(int(args[1])), bool(int(args[2]))
             w = x[1] if hw else None
